@@ -3,7 +3,7 @@
    (sends, uplink messages, clock changes, flushes, capacity changes); every prefix of a history is
    a history, so each theorem speaks about the state after every prefix. *)
 From Coq Require Import List NArith Bool.
-From LB Require Import Tables Framing NodeFlow NodeFlowProofs.
+From LB Require Import Tables Framing NodeFlow NodeFlowProofs NoStrandProofs.
 Import ListNotations.
 Local Open Scope N_scope.
 
@@ -46,6 +46,16 @@ Theorem C03_retry_drains : forall t a now,
   n_held (get t' a) = [] \/ ~ unblocked t' a \/ head_blocked_by_budget t' a.
 Proof. exact try_queued_post. Qed.
 Print Assumptions C03_retry_drains.
+
+(* Never stranded, for every history in which no outstanding request expires (the clock does not
+   move): after every event, a node that still holds a message and has no stalled ancestor-or-self is
+   limited by its budget - the oldest held message does not fit. Together with the refutation below
+   (which needs the clock to move) this delimits the defect exactly. *)
+Theorem C03_no_strand_event_except : forall es so now0, forallb no_clock es = true ->
+  let '(t, _, _, _, _) := tab_run [] so now0 es in
+  forall a, n_held (get t a) <> [] -> unblocked t a -> head_blocked_by_budget t a.
+Proof. exact no_strand_const_clock. Qed.
+Print Assumptions C03_no_strand_event_except.
 
 (* REFUTED on the faithful model (known finding strand.lazy-expiry): a history after which a held
    message fits the budget of live requests and nothing is stalled, yet it is still held.
